@@ -28,7 +28,7 @@ LEVEL = "exploration"
 TECHNIQUE = 'probe hooks around the bundled extrusion hook + interpreter positions and an extruder-axis model (M82/M83, G92 E)'
 LEVEL_TEXT = 'Held on random move/rapid/bypass/tracer sequences with mode switches and E resets; one listed known finding.'
 RULE = ("random sequences (20-35 steps) of moves, rapids, every tracer shape, distance-mode and "
-        "extrusion-mode switches, set_axis(E=...) resets, move_hook() contexts and permanently added "
+        "extrusion-mode switches, set_axis(E=...) resets, move_hook() contexts (nested; hooks added / removed for good inside them) and permanently added "
         "hooks, with random layer/nozzle/filament geometry; distinct = (distance mode, extrusion mode, "
         "source operation, after-reset?, hooks registered)")
 ASSUMPTIONS = [
@@ -43,7 +43,9 @@ TIERS = {
 FLOORS = {
     "quick": {"counts": {"g1_lines_checked": 60000, "hook_invocations_checked": 100000,
                          "extrusion_amounts_checked": 50000, "rapids_checked": 700,
-                         "absolute_extrusion_moves": 15000, "relative_extrusion_moves": 15000}, "keys": 20},
+                         "absolute_extrusion_moves": 15000, "relative_extrusion_moves": 15000,
+                         "hooks_added_inside_context": 100, "hooks_removed_inside_context": 30,
+                         "mid_history_hook_checks": 2000}, "keys": 20},
     "thorough": {"counts": {"g1_lines_checked": 2500000}, "keys": 20},
 }
 
@@ -94,8 +96,12 @@ def run_case(ctx, col, case):
                       mechanism=mech)
         return False
 
+    perms, retired = [], []     # probes added for good in mid-history / removed again
+
     def step(name, args, kw, source, expect_hooks=True):
         n_first, n_last = len(first.calls), len(last.calls)
+        n_perm = [len(p.calls) for p in perms]
+        n_retired = [len(p.calls) for p in retired]
         n_moves = len(m.moves)
         nlines0 = len(s.lines)
         prev_budget = dict(m.budget)
@@ -120,6 +126,15 @@ def run_case(ctx, col, case):
             return fail("hook-not-called-exactly-once-per-linear-move", g1_lines=len(g1), rapids=len(g0),
                         first_hook_calls=len(fcalls), last_hook_calls=len(lcalls),
                         mech="c20:hook-count:" + ("rapid" if g0 and not g1 else "move"))
+        for p, n0 in zip(perms, n_perm):
+            if len(p.calls) - n0 != len(g1):
+                return fail("registered-hook-not-called-once-per-linear-move", hook=p.name, g1_lines=len(g1),
+                            calls=len(p.calls) - n0, mech="c20:hook-count:registered-in-mid-history")
+        for p, n0 in zip(retired, n_retired):
+            if len(p.calls) != n0:
+                return fail("removed-hook-still-called", hook=p.name, calls=len(p.calls) - n0,
+                            mech="c20:hook-count:removed")
+        col.count("mid_history_hook_checks", len(perms) + len(retired))
         rel_ext = None
         for mv, fc, lc in zip(g1, fcalls, lcalls):
             code, before, after, axes, others, budget = mv
@@ -251,9 +266,33 @@ def run_case(ctx, col, case):
         elif r < 0.82:
             extra = Probe("temp", mutate=False)
             with g.move_hook(extra):
+                # registrations made while a temporary hook is active are permanent ones: they must
+                # survive the end of the context (and removals must not be undone by it)
+                what = rng.choice(["none", "none", "add", "remove", "nested"])
+                if what == "add" and len(perms) < 3:
+                    p = Probe(f"perm{len(perms) + len(retired)}", mutate=False)
+                    g.add_hook(p)
+                    perms.append(p)
+                    col.count("hooks_added_inside_context")
+                elif what == "remove" and perms:
+                    p = perms.pop(rng.randrange(len(perms)))
+                    g.remove_hook(p)
+                    retired.append(p)
+                    col.count("hooks_removed_inside_context")
                 kw = {a: (rng.uniform(-5, 5) if rel else rng.uniform(-30, 30)) for a in "xy"}
-                if not step("move", (), kw, "move_hook"):
+                if what == "nested":
+                    inner = Probe("temp-inner", mutate=False)
+                    with g.move_hook(inner):
+                        ok = step("move", (), kw, "move_hook")
+                    if ok and (len(inner.calls) != 1 or inner in g._hooks):
+                        fail("nested-temporary-hook-not-called-once-or-not-removed", calls=len(inner.calls))
+                        return
+                    retired.append(inner)
+                else:
+                    ok = step("move", (), kw, "move_hook")
+                if not ok:
                     return
+            retired.append(extra)
             if len(extra.calls) != 1:
                 fail("temporary-hook-not-called-once", calls=len(extra.calls))
                 return
